@@ -344,6 +344,14 @@ func genErrDecimal(rng__ *rand.Rand) *ErrDecimal {
 	return e
 }
 func genInt(rng__ *rand.Rand) int64 { return racInts[rng__.Intn(len(racInts))] }
+func genBytes(rng__ *rand.Rand) []byte {
+	n := []int{0, 0, 1, 2, 8, 9, 16, 17, 40}[rng__.Intn(9)]
+	bs := make([]byte, n, n+rng__.Intn(3)*8)
+	for i := range bs {
+		bs[i] = byte([]int{0, 1, 255, 128, 7}[rng__.Intn(5)])
+	}
+	return bs
+}
 func genSlice(rng__ *rand.Rand) []int64 {
 	n := rng__.Intn(4)
 	xs := make([]int64, n)
@@ -479,6 +487,8 @@ func (W *World) racParams(fn *ssa.Function) ([]racParam, bool) {
 			case *types.Slice:
 				if b, ok := u.Elem().(*types.Basic); ok && b.Kind() == types.Int64 {
 					rp.goType, rp.gen, rp.show = "[]int64", "genSlice(rng__)", "fmt.Sprint(%s)"
+				} else if b, ok := u.Elem().(*types.Basic); ok && (b.Kind() == types.Uint8 || b.Kind() == types.Byte) {
+					rp.goType, rp.gen, rp.show = "[]byte", "genBytes(rng__)", "fmt.Sprint(%s)"
 				} else {
 					return nil, false
 				}
